@@ -9,6 +9,7 @@
 (* the parameter list) is decided by Trace_Params.                         *)
 (***************************************************************************)
 EXTENDS Lex, Json
+CONSTANT LongN        \* how many of the long-list skeletons to include (0..3)
 VARIABLES tp, vp
 
 S(x) == StrCps(x)
@@ -17,7 +18,17 @@ Q == 39
 TX(x) == <<"t", StrCps(x)>>
 HA == <<"h", 1>>
 HB == <<"h", 2>>
-Skeletons ==
+\* long in-lists (drivers and databases have limits of 999 / 1000 / 2100 host parameters or list items; "every
+\* value is a bound parameter" must not stop holding beyond them): N fixed fillers after the varied element
+RECURSIVE IntFill(_)
+IntFill(k) == IF k = 0 THEN <<>> ELSE IntFill(k - 1) \o <<44, 32>> \o NatCps(k)
+RECURSIVE StrFill(_)
+StrFill(k) == IF k = 0 THEN <<>> ELSE StrFill(k - 1) \o <<44, 32, Q, 107>> \o NatCps(k) \o <<Q>>
+LongSkeletons ==
+  << <<"IntegerLong", <<TX("n in ("), HA, <<"t", IntFill(1000)>>, TX(")")>>>>,
+     <<"StringLong", <<TX("s in ("), HA, <<"t", StrFill(1000)>>, TX(")")>>>>,
+     <<"IntegerLong", <<TX("not (n in ("), HA, <<"t", IntFill(2100)>>, TX(")) or cs/any(x: x/n in ("), HB, <<"t", IntFill(1200)>>, TX("))")>>>> >>
+Skeletons == SubSeq(LongSkeletons, 1, LongN) \o
   << <<"Integer", <<TX("n eq "), HA>>>>, <<"Integer", <<HA, TX(" lt n")>>>>, <<"Integer", <<TX("n in ("), HA, TX(", "), HB, TX(")")>>>>,
      <<"Integer", <<TX("n add "), HA, TX(" gt "), HB>>>>, <<"Integer", <<TX("n eq "), HA, TX(" add "), HB>>>>,
      <<"Integer", <<TX("("), HA, TX(" add "), HB, TX(") mul 2 lt n")>>>>, <<"Integer", <<TX("n mod "), HA, TX(" eq "), HB>>>>,
@@ -39,6 +50,8 @@ StrSp(c) == <<Q>> \o EscapeQuotes(c) \o <<Q>>
 Values ==
   [ Integer |-> << <<S("7301"), S("7302")>>, <<S("0"), S("1")>>, <<S("-5"), S("18446744073709551615")>>,
                    <<S("9223372036854775807"), S("9223372036854775808")>>, <<S("18446744073709551614"), S("42")>> >>,
+    IntegerLong |-> << <<S("7301"), S("7302")>>, <<S("-5"), S("18446744073709551615")>> >>,
+    StringLong |-> << <<StrSp(<<97, Q, 98>>), StrSp(S("c;--"))>> >>,
     Float |-> << <<S("7301.5"), S("0.25")>>, <<S("1e3"), S("2.5E-2")>> >>,
     String |-> << <<StrSp(S("q7x")), StrSp(S("zz9"))>>, <<StrSp(<<97, Q, 98>>), StrSp(S("c;--"))>>, <<StrSp(S("%")), StrSp(S("_"))>>,
                   <<StrSp(<<>>), StrSp(S("x"))>>, <<StrSp(S("' OR '1'='1")), StrSp(<<92, 34>>)>>, <<StrSp(S("plain")), StrSp(S("with%wild"))>> >>,
@@ -60,7 +73,9 @@ Pair == Values[Skeletons[tp][1]][vp]
 Text1 == Fill(Skeletons[tp][2], Pair[1], Pair[2])
 Text2 == Fill(Skeletons[tp][2], Pair[2], Pair[1])
 HasB == \E i \in 1..Len(Skeletons[tp][2]) : Skeletons[tp][2][i] = HB
-BothParse == IsCase => (ParseText(Text1)[1] = "ok" /\ ParseText(Text2)[1] = "ok")
+\* (long-list cases: checked by the real parser only -- the per-code-point spec lexer is quadratic in the text length)
+IsLong == Skeletons[tp][1] \in {"IntegerLong", "StringLong"}
+BothParse == (IsCase /\ ~IsLong) => (ParseText(Text1)[1] = "ok" /\ ParseText(Text2)[1] = "ok")
 Export == PrintT(ToJson(IF IsCase THEN [k |-> "case", kind |-> Skeletons[tp][1], tp |-> tp, vp |-> vp, text1 |-> Text1, text2 |-> Text2,
                                           a |-> Pair[1], b |-> Pair[2], hasb |-> HasB]
                         ELSE [k |-> "partial"]))
